@@ -41,12 +41,13 @@ def LSpec.dual (s ds : LSpec Rat) : LSpec Dual :=
     output_shape := s.output_shape.map (⟨·, 0⟩),
     hasBias := s.hasBias, has_a_precision := s.has_a_precision }
 
-/-- description of a Conv1d with static kernel `k` in the Dual reading, the derivative seeded at
-`alpha[i]` -/
-def conv1dAlphaDual (dsc : Bool) (C : Nat) (α : Nat → Rat) (i : Nat) (cin k : Rat) (bias : Bool) : LSpec Dual :=
+/-- description of a Conv1d with static kernel `k` and `g` groups in the Dual reading, the derivative
+seeded at `alpha[i]` (PIT converts `groups == 1` or depthwise convolutions only, so `g = 1` for every
+layer the generic handler sees in a search; the size / operation counts divide by `g`) -/
+def conv1dAlphaDual (dsc : Bool) (C : Nat) (α : Nat → Rat) (i : Nat) (cin g k : Rat) (bias : Bool) : LSpec Dual :=
   { (LSpec.empty : LSpec Dual) with
-    in_channels := ⟨cin, 0⟩, out_channels := outEffD dsc C (seedAt α i), kernel_size := [⟨k, 0⟩],
-    hasBias := bias }
+    in_channels := ⟨cin, 0⟩, out_channels := outEffD dsc C (seedAt α i), groups := ⟨g, 0⟩,
+    kernel_size := [⟨k, 0⟩], hasBias := bias }
 
 
 end PlinioVerif
